@@ -7,6 +7,9 @@ open IV IV.Proto IV.Dr IV.Specs
 
 inductive BodySpec where
   | val | none | fault (e : Exc) | first
+  | zero
+  | disabled              -- dr.set_enabled(component, False) for this evaluation
+  | shaped (k : Nat)      -- a value of another shape (falsy object, empty list, list): one atom per (shape, producer)
 
 structure St where
   points : List (Name × Comp) := []
@@ -41,6 +44,7 @@ def parseBody (s : String) : Option BodySpec :=
   match s with
   | "v" => some .val | "n" => some .none | "skip" => some (.fault .skip) | "content" => some (.fault .content)
   | "crash" => some (.fault (.crash 1)) | "first" => some .first
+  | "disabled" => some .disabled | "zero" => some .zero | "falsy" => some (.shaped 2) | "elist" => some (.shaped 3) | "list" => some (.shaped 4)
   | "calledproc" => some (.fault .calledProc) | "timeout" => some (.fault .timeout) | "blacklisted" => some (.fault .blacklisted)
   | _ => none
 
@@ -53,18 +57,32 @@ def parseOutcomes (s : String) : Option (List (Comp × BodySpec)) :=
       | _, _ => none
     | _, _ => none) (some [])
 
+/-- `cid=flags,cid=flags` -/
+def parseOwns (s : String) : Option (List (Comp × Nat)) :=
+  if s = "-" then some [] else
+  (s.splitOn ",").foldr (fun p acc => match acc, p.splitOn "=" with
+    | some l, [c, b] => match c.toNat?, b.toNat? with
+      | some c, some b => some ((c, b) :: l)
+      | _, _ => none
+    | _, _ => none) (some [])
+
 def St.root (s : St) : Root where
   registry n := (s.points.find? (·.1 == n)).map (·.2)
   nameOf c := (s.points.find? (·.2 == c)).map (·.1)
 
 def St.env (s : St) (outs : List (Comp × BodySpec)) : World where
   decl c := (s.decls.find? (·.1 == c)).map (·.2)
-  enabled _ := true
+  enabled c := match ((outs.find? (·.1 == c)).map (·.2) : Option BodySpec) with
+    | some BodySpec.disabled => false
+    | _ => true
   ignore _ := []
   regPoints _ := []
   body c args := match ((outs.find? (·.1 == c)).map (·.2) : Option BodySpec) with
+    | some BodySpec.disabled => .fault .badDecl      -- never reached: the engine passes a disabled component over
     | some BodySpec.val => .value (.atom (1000 + c))
     | some BodySpec.none => .value .none
+    | some (BodySpec.shaped k) => .value (.atom (k * 100000 + c))
+    | some BodySpec.zero => .value (.atom 0)
     | some (BodySpec.fault e) => .fault e
     | some BodySpec.first =>                    -- spec_factory.first_of: `for c in self.deps: if c in broker: return broker[c]`
       match args.find? (·.isSome) with
@@ -195,6 +213,13 @@ def handle (s : St) (fs : List String) : St × String :=
           if pts.all (fun np => fr.deps np.1 == r.deps np.2) && cs.all (fun c => sortDedup (fr.ignore c) == sortDedup (r.ignore c))
           then "agree" else "DISAGREE"
       (s, s!"deps={deps}|ign={ign}{pts}|H={if famCheck s.hhist r then "ok" else "FAIL"}|flat={fl}")
+    | _, _ => (s, "bad-op")
+  | ["hflags", comps, owns] =>
+    -- the flags of the components `comps` after the classes created so far; `owns`: cid=flags they were created with
+    match nats ',' comps, parseOwns owns with
+    | some cs, some ow =>
+      let f := fRegister (fun c => ((ow.find? (·.1 == c)).map (·.2)).getD 0) s.hhist
+      (s, "flags=" ++ ";".intercalate (cs.map (fun c => s!"{c}:{f.flags c}")))
     | _, _ => (s, "bad-op")
   | ["hsup", t, n, c] =>
     match t.toNat?, n.toNat?, c.toNat? with
